@@ -403,7 +403,7 @@ func TestVerifC11(t *testing.T) {
 			}
 		}
 	}
-	nd := 300
+	nd := 200
 	if vhThorough() {
 		nd = 3000
 	}
@@ -465,7 +465,7 @@ func TestVerifC11(t *testing.T) {
 		}
 	}
 	// (b2) the server announces a smaller msize than the client asked for: the chunks follow the announced one
-	for _, g := range [][2]uint32{{65536, 160}, {8192, 666}, {65536, 2201}, {65536, 65030}, {1 << 20, 65536 + 153}} {
+	for _, g := range [][2]uint32{{65536, 160}, {8192, 666}, {65536, 2201}, {65536, 65030}} {
 		cs := vh11Payload(g[1])
 		for _, write := range []bool{true, false} {
 			for _, lenp := range []int{cs + 1, 2*cs + 1} {
@@ -479,9 +479,10 @@ func TestVerifC11(t *testing.T) {
 		}
 	}
 	// (c) end to end, larger msize up to 1 MiB and more: length level + content checked here
-	bigs := []uint32{2201, 4096, 8192, 65536, 1 << 20}
+	// quick: up to 64 KiB (the length-level evaluation in Coq is unary); MiB-sized runs in the thorough tier
+	bigs := []uint32{2201, 4096, 8192, 65536}
 	if vhThorough() {
-		bigs = append(bigs, 4097, 1<<20+1) // (4 MiB buffers are too costly for the unary length-level evaluation)
+		bigs = append(bigs, 4097, 1<<20, 1<<20+1)
 	}
 	for _, msize := range bigs {
 		cs := vh11Payload(msize)
@@ -491,7 +492,7 @@ func TestVerifC11(t *testing.T) {
 				if msize >= 1<<20 && !vhThorough() && !(k == 2 && d == 1) && !(k == 1 && d == 0) {
 					continue
 				}
-				if msize >= 4096 && msize < 1<<20 && k == 3 && d != 1 && !vhThorough() {
+				if !vhThorough() && ((msize >= 4096 && k == 3) || (msize >= 8192 && d != 0)) {
 					continue
 				}
 				for _, write := range []bool{true, false} {
